@@ -155,8 +155,35 @@ pub fn twin_tokens(text: &str, variant: usize) -> Option<String> {
     Some(out)
 }
 
+/// Documents whose output depends on one configuration field in an unusual place (not just the indentation of nested lines):
+/// any process-wide copy of a configuration value — a `static`, a cache keyed by text only — makes one call's result depend on
+/// which other configurations are in use at the same time. Each is formatted under every tab size and several widths.
+const CONFIG_SENSITIVE: [&str; 12] = [
+    "#{\n\t/* layout:\n\tpage\n\t\tcolumn\n\t\t\tcell\n*/\n\tlet x = 1\n}",
+    "/* a\n\tb\n\t\tc\n */\n#let x = 1",
+    "#f(\n\t/* one\n\t   two\n\t\tthree */\n\ta,\n)",
+    "#{\n  /* a\n     b\n       c */\n  f(x)\n}",
+    "- a\n\t- b\n\t\t- c\n\t\t  d",
+    "#table(\n  columns: 3,\n  [a], [b], [c],\n  [d], [e], [f],\n)",
+    "#let f(x) = {\n  if x {\n    (1, 2,\n      3)\n  } else [\n    text\n  ]\n}",
+    "#import \"lib.typ\": zeta, alpha as a2, alpha, mid.sub as m, mid",
+    "$ mat(\n  1, 2;\n  3, 4;\n) $",
+    "#show heading: it => block(\n  fill: luma(230), inset: 8pt, radius: 4pt, it.body + [ ] + counter(heading).display(),\n)",
+    "#let long = some_function(argument_one, argument_two, argument_three, argument_four, \"five\")",
+    "/ Term: description\n  continued\n\n  + one\n    + two #f(a,\n      b)",
+];
+
 pub fn build_items(cases: &[crate::engine::Case], n: usize, rng: &mut Rng) -> Vec<Item> {
     let mut items = vec![];
+    for (k, t) in CONFIG_SENSITIVE.iter().enumerate() {
+        if tree::parse_ok(t).is_none() {
+            continue;
+        }
+        for (j, tab) in [1usize, 2, 4, 8, 3].into_iter().enumerate() {
+            let w = [fmtx::W_INF, 0, 40, 80, 20][(k + j) % 5];
+            items.push(Item { text: t.to_string(), cfg: Cfg::new(w, tab, j % 2 == 1), origin: format!("config-sensitive#{}|tab{}", k, tab) });
+        }
+    }
     let mut idx: Vec<usize> = (0..cases.len()).collect();
     rng.shuffle(&mut idx);
     // documents with `@typstyle off` regions, comments and imports exercise the per-call attribute state:
@@ -187,6 +214,15 @@ pub fn build_items(cases: &[crate::engine::Case], n: usize, rng: &mut Rng) -> Ve
         for v in 0..2 {
             if let Some(t) = twin_tokens(&c.text, v) {
                 items.push(Item { text: t, cfg, origin: format!("{}|token-twin{}", c.origin, v) });
+            }
+        }
+        // configuration siblings: the same text under other configurations, in flight at the same time as the item itself
+        if items.len() % 5 == 0 {
+            for k in 0..2 {
+                let other = Cfg::new(*rng.pick(&[0usize, 20, 40, 80, 120, fmtx::W_INF]), *rng.pick(&[1usize, 2, 3, 4, 8]), !cfg.reorder ^ (k == 0));
+                if other.width != cfg.width || other.tab != cfg.tab || other.reorder != cfg.reorder {
+                    items.push(Item { text: c.text.clone(), cfg: other, origin: format!("{}|config-sibling{}", c.origin, k) });
+                }
             }
         }
     }
@@ -281,6 +317,45 @@ pub fn concurrent_history(items: &[Item], reference: &[String], threads: usize, 
                                         _ => {}
                                     }
                                 }
+                            }
+                        }
+                        (log, bad)
+                    })
+                    .unwrap(),
+            );
+        }
+        for h in handles {
+            let (log, bad) = h.join().unwrap();
+            all_events.extend(log);
+            mismatches.extend(bad);
+        }
+    });
+    HistoryResult { events: all_events, mismatches }
+}
+
+/// One thread per item (the items are configurations of the same text), each formatting its item `rounds` times from a barrier.
+pub fn crosstalk_history(items: &[Item], reference: &[String], rounds: usize) -> HistoryResult {
+    let barrier = Arc::new(Barrier::new(items.len()));
+    let mut all_events = vec![];
+    let mut mismatches = vec![];
+    std::thread::scope(|s| {
+        let mut handles = vec![];
+        for t in 0..items.len() {
+            let barrier = barrier.clone();
+            handles.push(
+                std::thread::Builder::new()
+                    .stack_size(16 << 20)
+                    .spawn_scoped(s, move || {
+                        let mut log = vec![];
+                        let mut bad = vec![];
+                        barrier.wait();
+                        for _ in 0..rounds {
+                            let seq_in = SEQ.fetch_add(1, Ordering::SeqCst);
+                            let got = out_to_string(&fmtx::fmt(&items[t].text, items[t].cfg));
+                            let seq_out = SEQ.fetch_add(1, Ordering::SeqCst);
+                            log.push(Event { thread: t, item: t, seq_in, seq_out, out_hash: util::hash64(&got) });
+                            if got != reference[t] {
+                                bad.push((t, t, got));
                             }
                         }
                         (log, bad)
@@ -412,6 +487,44 @@ pub fn run(items: &[Item], thread_counts: &[usize], rounds: usize, seed: u64, pr
         for (i, _t, got) in res.mismatches.iter().take(20) {
             push_mismatch(acc, &items, &reference, *i, &format!("{} concurrent threads", tc), got);
         }
+    }
+    // (iii-b) configuration crosstalk: all configurations of one text in flight at the same time, one thread per configuration,
+    // many rounds from a barrier — the window between "configuration stored" and "configuration used" of any process-wide copy
+    {
+        let mut groups: std::collections::BTreeMap<u64, Vec<usize>> = Default::default();
+        for (i, it) in items.iter().enumerate() {
+            if it.origin.starts_with("config-sensitive#") || it.origin.contains("|config-sibling") {
+                groups.entry(util::hash64(&it.text)).or_default().push(i);
+            }
+        }
+        // a sibling's group also contains the item it was derived from
+        for (i, it) in items.iter().enumerate() {
+            if let Some(g) = groups.get_mut(&util::hash64(&it.text)) {
+                if !g.contains(&i) {
+                    g.push(i);
+                }
+            }
+        }
+        let mut calls = 0u64;
+        let mut ov = 0u64;
+        let mut reported = 0;
+        for (_, g) in groups.iter().filter(|(_, g)| g.len() >= 2).take(120) {
+            let sub: Vec<Item> = g.iter().map(|&i| items[i].clone()).collect();
+            let subref: Vec<String> = g.iter().map(|&i| reference[i].clone()).collect();
+            let res = crosstalk_history(&sub, &subref, 150);
+            calls += res.events.len() as u64;
+            ov += overlapping_pairs(&res.events);
+            acc.evaluations += res.events.len() as u64;
+            acc.held += (res.events.len() - res.mismatches.len()) as u64;
+            if let Some((i, _t, got)) = res.mismatches.first() {
+                if reported < 10 {
+                    push_mismatch(acc, &items, &reference, g[*i], &format!("configuration crosstalk: {} configurations of one text on {} threads", sub.len(), sub.len()), got);
+                    reported += 1;
+                }
+            }
+        }
+        acc.count("crosstalk_calls", calls);
+        acc.count("crosstalk_overlapping_call_pairs_observed", ov);
     }
     // (v) separate processes with different environments
     let envs: Vec<(Vec<(&str, &str)>, Option<&str>)> = vec![
